@@ -447,8 +447,9 @@ fn build(rng: &mut Rng, case: usize, with_malformed: bool) -> Built {
     // 0 push 1000 msat, 1 push 5e6 msat, 2 inbound, 3 initial commitment missing, 4 past the initial commitment,
     // 5 value + 1, 6 value - 1, 7 wrong script, 8 one flag flipped, 9 an unknown output, 10 a wallet path with
     // another key's script, 11 a p2pkh input
-    // 12 one segwit flag missing
-    let defect: Option<u64> = if style == 1 { Some(rng.below(13)) } else { None };
+    // 12 one segwit flag missing, 13 a taproot input of another wallet key than the one named, 14 an input path
+    // of the wrong length (13 and 14 pass the check and are refused when it comes to signing)
+    let defect: Option<u64> = if style == 1 { Some(*rng.pick(&[0u64, 1, 2, 3, 4, 5, 6, 7, 8, 9, 10, 11, 12, 13, 13, 14, 14])) } else { None };
     // the defect together with an output to nowhere: whether an approval can wash the defect away
     let also_unknown = style == 1 && defect != Some(9) && rng.chance(2, 5);
     let pol = gen_policy(rng, clean);
@@ -482,7 +483,7 @@ fn build(rng: &mut Rng, case: usize, with_malformed: bool) -> Built {
         7..=8 => 2,
         _ => 3,
     };
-    if matches!(defect, Some(0..=8) | Some(11) | Some(12)) && n_ch == 0 {
+    if matches!(defect, Some(0..=8) | Some(11..=14)) && n_ch == 0 {
         n_ch = 1;
     }
     struct ChPlan {
@@ -676,7 +677,11 @@ fn build(rng: &mut Rng, case: usize, with_malformed: bool) -> Built {
             rng.below(100)
         };
         let legacy_cut = if n_ch > 0 { 6 } else { 14 };
-        let (kind, script, spend_valid, uck, signable): (&'static str, ScriptBuf, bool, Uck, bool) = if pick < legacy_cut {
+        let (kind, script, spend_valid, uck, signable): (&'static str, ScriptBuf, bool, Uck, bool) = if defect == Some(13) && k == 0 {
+            ("p2tr-of-another-key", refw.script_of(&refw.wallet_key(&path_of(&[i + 100])), 2), true, None, true)
+        } else if defect == Some(14) && k == 0 {
+            ("p2wpkh-two-step-path", refw.script_of(&pk, 0), true, None, true)
+        } else if pick < legacy_cut {
             ("p2pkh", refw.script_of(&pk, 3), true, None, true)
         } else if pick < 60 {
             ("p2wpkh", refw.script_of(&pk, 0), true, None, true)
@@ -713,6 +718,7 @@ fn build(rng: &mut Rng, case: usize, with_malformed: bool) -> Built {
             sequence: Sequence::ZERO,
             witness: Witness::default(),
         });
+        let p = if kind == "p2wpkh-two-step-path" { path_of(&[i, 1]) } else { p };
         ins.push(InSpec { kind, value: 0, script, spend_valid, ipath: if spend_valid && uck.is_none() { p } else { path_of(&[]) }, signable });
         ucks.push(uck);
     }
@@ -1170,9 +1176,29 @@ fn c10_diff(world: &World, node: &Arc<Node>, before: &Snap, now: u64, what: &str
     if same_control(&after.fee, &rotated(&before.fee, now)) {
         d.retain(|x| x != "fee_velocity differs");
     }
+    // a request that is check + sign (the SignWithdrawal handler) and is refused at signing has had its fee counted
+    // by the check: the control in memory over-counts (nothing is stored).  Kept apart as an observation: it errs
+    // on the refusing side and a restart forgets it.
+    let mut note = None;
+    if d.iter().any(|x| x == "fee_velocity differs") {
+        let r = rotated(&before.fee, now);
+        let only_current_grew = after.fee.start_sec == r.start_sec
+            && after.fee.limit == r.limit
+            && after.fee.buckets.len() == r.buckets.len()
+            && !r.buckets.is_empty()
+            && after.fee.buckets[0] >= r.buckets[0]
+            && after.fee.buckets[1..] == r.buckets[1..];
+        if only_current_grew {
+            d.retain(|x| x != "fee_velocity differs");
+            note = Some(format!(
+                "C10-note: refused {} left its fee counted in the fee velocity control in memory ({} -> {} msat in the current bucket), nothing stored",
+                what, r.buckets[0], after.fee.buckets[0]
+            ));
+        }
+    }
     d.extend(store_diff(&before.store, &after.store));
     if d.is_empty() {
-        None
+        note
     } else {
         Some(format!("C10: refused {} changed: {}", what, d.join("; ")))
     }
@@ -1438,7 +1464,7 @@ fn witness_domain(_args: &Args) {
     let mut stats = Stats::default();
     let values = vec![U64MAX / 1000 + 1];
     let st = node_step(&b, &node, &values, 161_398, false, &mut log, &mut stats);
-    let mut monitor = st.monitor.clone();
+    let mut monitor: Vec<String> = st.monitor.iter().filter(|m| !m.starts_with("C10") && !m.starts_with("C11:")).cloned().collect();
     if let Some((t0, len, sum)) = window_violation(&log, b.pol.vel_limit, 300, 12) {
         monitor.push(format!("accepted non-beneficial values in the window [{}, {}+{}) sum to {} msat, above the fee velocity limit {}", t0, t0, len, sum, b.pol.vel_limit));
     }
@@ -1659,7 +1685,8 @@ fn node_domain(args: &Args) {
         let all_mon: Vec<String> = steps.iter().flat_map(|s| s.monitor.clone()).collect();
         let c11: Vec<String> = all_mon.iter().filter(|m| m.starts_with("C11:")).cloned().collect();
         let c10: Vec<String> = all_mon.iter().filter(|m| m.starts_with("C10:")).cloned().collect();
-        let mut monitor: Vec<String> = all_mon.into_iter().filter(|m| !m.starts_with("C11:") && !m.starts_with("C10:")).collect();
+        let c10_notes: Vec<String> = all_mon.iter().filter(|m| m.starts_with("C10-note:")).cloned().collect();
+        let mut monitor: Vec<String> = all_mon.into_iter().filter(|m| !m.starts_with("C11:") && !m.starts_with("C10")).collect();
         if b.pol.vel_kind != 2 && !ref_warned(&b.pol.rules, TAGS[9]) {
             if let Some((t0, len, sum)) = window_violation(&log, b.pol.vel_limit, ivl, nb) {
                 monitor.push(format!("accepted non-beneficial values in the window [{}, {}+{}) sum to {} msat, above the fee velocity limit {}", t0, t0, len, sum, b.pol.vel_limit));
@@ -1674,7 +1701,7 @@ fn node_domain(args: &Args) {
             json!({"id": case, "kind": "node", "policy": pol_json(&b.pol), "transaction": tx_json(&b, &vec![0; b.ins.len()]),
                    "steps": steps.iter().map(|s| s.json.clone()).collect::<Vec<_>>(), "timeline": timeline,
                    "n_funded": n_funded, "accepted": steps.iter().any(|s| s.check_code == 0),
-                   "monitor_violation": monitor, "c11_violations": c11, "coq": coq}),
+                   "monitor_violation": monitor, "c11_violations": c11, "c10_violations": c10, "c10_observations": c10_notes, "coq": coq}),
         );
     }
     emit(
@@ -1840,11 +1867,18 @@ fn handler_domain(args: &Args) {
     let mut forms: std::collections::BTreeMap<String, u64> = Default::default();
     let mut kinds_signed: std::collections::BTreeMap<String, u64> = Default::default();
     let (mut signed_usable, mut signed_unusable, mut monitor_failures, mut decode_disagreements) = (0u64, 0u64, 0u64, 0u64);
+    let (mut c10_checked, mut sign_refusal_cases, mut sign_refusal_hit) = (0u64, 0u64, 0u64);
     for case in 0..args.n {
         let mut pol = gen_policy(&mut rng, true);
-        if rng.chance(9, 10) {
+        // a funding transaction that passes the check and is refused when it comes to signing: a taproot input
+        // whose script is the address of another wallet key than the one the utxo names
+        let sign_refusal = rng.chance(1, 8);
+        if sign_refusal || rng.chance(9, 10) {
             pol.rules = vec![];
             pol.disable_beneficial = false;
+        }
+        if sign_refusal && pol.max_feerate < 25_000 {
+            pol.max_feerate = 333_333;
         }
         let mut seed = [0u8; 32];
         seed[0] = (case % 251) as u8;
@@ -1859,13 +1893,24 @@ fn handler_domain(args: &Args) {
 
         // ---- inputs: wallet outputs of previous transactions made here
         let n_in = 1 + rng.below(3) as usize;
-        let liar = if rng.chance(2, 5) { Some(rng.below(n_in as u64) as usize) } else { None };
-        let mut kinds: Vec<(&'static str, u64, u32)> = vec![]; // (name, script kind, key index)
+        let liar = if !sign_refusal && rng.chance(2, 5) { Some(rng.below(n_in as u64) as usize) } else { None };
+        let mut kinds: Vec<(&'static str, u64, u32, u32)> = vec![]; // (name, script kind, key index named, key of the script)
         let mut in_forms: Vec<Form> = vec![];
         for k in 0..n_in {
-            let (name, code) = *rng.pick(&[("p2wpkh", 0u64), ("p2wpkh", 0), ("p2sh-p2wpkh", 1), ("p2tr", 2), ("p2pkh", 3), ("p2pkh", 3)]);
-            kinds.push((name, code, rng.below(40) as u32));
-            let f = if liar == Some(k) {
+            let (name, code) = if sign_refusal {
+                *rng.pick(&[("p2wpkh", 0u64), ("p2tr", 2)])
+            } else {
+                *rng.pick(&[("p2wpkh", 0u64), ("p2wpkh", 0), ("p2sh-p2wpkh", 1), ("p2tr", 2), ("p2pkh", 3), ("p2pkh", 3)])
+            };
+            let idx = rng.below(40) as u32;
+            if sign_refusal && k == 0 {
+                kinds.push(("p2tr-of-another-key", 2, idx, idx + 100));
+            } else {
+                kinds.push((name, code, idx, idx));
+            }
+            let f = if sign_refusal {
+                *rng.pick(&[Form::Both, Form::PrevOnly])
+            } else if liar == Some(k) {
                 *rng.pick(&[Form::ClaimLow, Form::ClaimLow, Form::ClaimHigh, Form::BothLow, Form::BothLow, Form::BothHigh, Form::BothScript, Form::Neither])
             } else {
                 *rng.pick(&[Form::Both, Form::Both, Form::Both, Form::PrevOnly, Form::PrevOnly, Form::ClaimOnly])
@@ -1875,12 +1920,12 @@ fn handler_domain(args: &Args) {
 
         // ---- an optional channel (stub first, its funding script is needed for the output)
         let mut chan: Option<(TestChannelContext, ScriptBuf, u64)> = None; // (ctx, funding script, holder mode)
-        if rng.chance(3, 10) {
+        if sign_refusal || rng.chance(3, 10) {
             let value = 100_000 + rng.below(20_000_000);
-            let push = *rng.pick(&[0u64, 0, 0, 0, 999, 1000]);
+            let push = if sign_refusal { 0 } else { *rng.pick(&[0u64, 0, 0, 0, 999, 1000]) };
             let ctx = test_chan_ctx_with_push_val(&node_ctx, case * 8 + 1, value, push);
             let funding = make_test_funding_channel_outpoint(&node, &ctx.setup, &ctx.channel_id, 0).script_pubkey;
-            chan = Some((ctx, funding, *rng.pick(&[0u64, 0, 0, 2, 1])));
+            chan = Some((ctx, funding, if sign_refusal { 0 } else { *rng.pick(&[0u64, 0, 0, 2, 1]) }));
         }
 
         // ---- outputs
@@ -1900,7 +1945,7 @@ fn handler_domain(args: &Args) {
             let value = 1000 + rng.below(50_000_000);
             let i = rng.below(50) as u32;
             let kind = rng.below(3);
-            match rng.below(10) {
+            match if sign_refusal { rng.below(9) } else { rng.below(10) } {
                 0..=5 => {
                     let p = path_of(&[i]);
                     let pk = refw.wallet_key(&p);
@@ -1925,7 +1970,7 @@ fn handler_domain(args: &Args) {
         node.add_allowlist(&adds).expect("add_allowlist");
         // the operator edits the list before the request comes (the harness keeps its own record in refw)
         let mut allow_events: Vec<Value> = vec![];
-        if rng.chance(1, 3) {
+        if !sign_refusal && rng.chance(1, 3) {
             let in_use: Vec<ScriptBuf> = houts.iter().map(|o| o.script.clone()).collect();
             for _ in 0..1 + rng.below(2) {
                 allow_events.push(mutate_allowlist(&mut rng, &node, &mut refw, &in_use));
@@ -1952,7 +1997,7 @@ fn handler_domain(args: &Args) {
         };
         let w = skeleton.weight().to_wu() as u128 + n_in as u128 * (77 + 33);
         let fb = fee_bound(pol.max_feerate, w);
-        let shown_fee: u128 = match rng.below(8) {
+        let shown_fee: u128 = match if sign_refusal { 7 } else { rng.below(8) } {
             0 => fb,
             1 => fb + 1,
             2 => 0,
@@ -1983,8 +2028,8 @@ fn handler_domain(args: &Args) {
         let mut prevs: Vec<(Transaction, u32)> = vec![];
         let mut true_outs: Vec<TxOut> = vec![];
         for k in 0..n_in {
-            let (_, code, idx) = kinds[k];
-            let pk = refw.wallet_key(&path_of(&[idx]));
+            let (_, code, _, skey) = kinds[k];
+            let pk = refw.wallet_key(&path_of(&[skey]));
             let script = refw.script_of(&pk, code);
             let vout = rng.below(3) as u32;
             let mut outputs = vec![];
@@ -2131,6 +2176,7 @@ fn handler_domain(args: &Args) {
         });
         let inconsistent = disagrees || unverifiable;
         let mut monitor: Vec<String> = vec![];
+        let mut c10: Vec<String> = vec![];
         let mut decode_disagrees = false;
         let (code, reply): (u64, Option<Psbt>) = match decoded {
             Err(_) => (5, None),
@@ -2139,7 +2185,13 @@ fn handler_domain(args: &Args) {
                 if inconsistent {
                     decode_disagrees = true;
                 }
-                match catch_unwind(AssertUnwindSafe(|| root.handle(msg))) {
+                let before = if pol.rules.is_empty() { Some(snap(&world, &node)) } else { None };
+                let handled = catch_unwind(AssertUnwindSafe(|| root.handle(msg)));
+                if let (Some(before), Ok(Err(e))) = (&before, &handled) {
+                    c10_checked += 1;
+                    c10.extend(c10_diff(&world, &node, before, now, &format!("RootHandler::handle(SignWithdrawal) ({})", e)));
+                }
+                match handled {
                     Err(_) => (3, None),
                     Ok(Err(_)) => (2, None),
                     Ok(Ok(reply)) => {
@@ -2245,6 +2297,13 @@ fn handler_domain(args: &Args) {
         if !monitor.is_empty() {
             monitor_failures += 1;
         }
+        if sign_refusal {
+            sign_refusal_cases += 1;
+            // refused, and not by the check: the approver was not asked and the fee was counted
+            if code == 2 && asked.is_empty() && !same_control(&c0, &c1) {
+                sign_refusal_hit += 1;
+            }
+        }
         *codes.entry(code.to_string()).or_insert(0) += 1;
 
         // ---- the view the handler derives, for the model
@@ -2279,13 +2338,14 @@ fn handler_domain(args: &Args) {
                 _ => 2,
             };
             coq.push(format!(
-                "(({}, {}), ({}, {}, {}, {}), ({}, {}, {}))",
+                "(({}, {}), ({}, {}, {}, {}, {}), ({}, {}, {}))",
                 coq_rules(&pol.rules),
                 coq_pol(&pol),
                 vc_obs(&c0),
                 now,
                 nc,
                 coq_bool(answer),
+                coq_bool(sign_refusal),
                 ocode,
                 asked_coq,
                 vc_obs(&c1)
@@ -2305,14 +2365,19 @@ fn handler_domain(args: &Args) {
                    "reference": {"weight_lower_bound": w.to_string(), "true_sum_inputs": true_vals.iter().map(|v| *v as u128).sum::<u128>().to_string(),
                                  "sum_beneficial": outs.iter().map(counted).sum::<u128>().to_string(), "unclassified_outputs": unknown_ref,
                                  "request_disagrees_with_previous_tx": disagrees, "legacy_claim_without_previous_tx": unverifiable},
-                   "code": code, "decode_disagreement": decode_disagrees, "monitor_violation": monitor, "coq": coq}),
+                   "signing_time_refusal_case": sign_refusal,
+                   "code": code, "decode_disagreement": decode_disagrees, "monitor_violation": monitor,
+                   "c10_violations": c10.iter().filter(|m| m.starts_with("C10:")).cloned().collect::<Vec<_>>(),
+                   "c10_observations": c10.iter().filter(|m| m.starts_with("C10-note:")).cloned().collect::<Vec<_>>(), "coq": coq}),
         );
     }
     emit(
         "STATS",
         json!({"kind": "handler", "profile": profile_name(), "codes(0 reply,2 error,3 panic,4 refused at decode,5 decode panic)": codes,
                "request_forms": forms, "replies_valid_on_chain": signed_usable, "replies_not_valid_on_chain": signed_unusable,
-               "inputs_signed_by_script_class": kinds_signed, "decode_disagreements": decode_disagreements, "monitor_failures": monitor_failures}),
+               "inputs_signed_by_script_class": kinds_signed, "decode_disagreements": decode_disagreements, "monitor_failures": monitor_failures,
+               "c10_refused_requests_checked": c10_checked, "signing_time_refusal_cases": sign_refusal_cases,
+               "signing_time_refusals_after_an_accepted_check": sign_refusal_hit}),
     );
 }
 
